@@ -747,7 +747,7 @@ class Server():
             if ca not in self.reqs:  # point requestant.msg to incomer.rxbs
                 self.reqs[ca] = Requestant(msg=ix.rxbs, remoter=ix)
 
-            if ix.tymeout > 0.0 and ix.tymer.expired:
+            if ix.tymeout > 0.0 and ix.tymth is not None and ix.tymer.expired:
                 self.closeConnection(ca)
 
 
@@ -1188,7 +1188,7 @@ class BareServer():
             if ca not in self.stewards:
                 self.stewards[ca] = Steward(remoter=ix, dictable=self.dictable)
 
-            if ix.tymeout > 0.0 and ix.tymer.expired:
+            if ix.tymeout > 0.0 and ix.tymth is not None and ix.tymer.expired:
                 self.closeConnection(ca)
 
 
